@@ -25,4 +25,9 @@ pub mod std_specs {
     pub assume_specification<T>[<[T] as AsRef<[T]>>::as_ref](s: &[T]) -> (r: &[T]) ensures r@ == s@;
     pub assume_specification<'a>[<String as PartialEq<&'a str>>::eq](a: &String, b: &&str) -> (r: bool) ensures r == (a@ == b@);
     pub assume_specification[String::as_bytes](s: &String) -> (r: &[u8]) ensures r@ == crate::spec::utf8(s@);
+    /// Vec::set_len (unsafe).  ASSUMED: the first min(old, new) elements are kept, the rest are
+    /// unspecified.  NOT CHECKED: its safety precondition `new_len <= capacity` (vstd does not
+    /// model capacity; `reserve` only specifies that the contents are unchanged).
+    pub assume_specification<T, A: ::std::alloc::Allocator>[::std::vec::Vec::<T, A>::set_len](v: &mut ::std::vec::Vec<T, A>, n: usize)
+        ensures final(v)@.len() == n, forall|i: int| 0 <= i < n && i < old(v)@.len() ==> final(v)@[i] == old(v)@[i];
 }
